@@ -24,6 +24,11 @@ twin                                    noisy kinds: -> ok <list;…|->  the ima
                                         setters removed (`reads g {} (strip history)`)
 tint input|foreign|plain                the grid label of the power handed to integrate (`tStep`)   -> ok
 tread                                   -> ok detector|input|foreign   (label of the image read out)
+ntset dark|flat|sigma none|detector|input|foreign   the grid a parameter map of the noisy detector carries (`ntStep`) -> ok
+ntint input|foreign|plain / ntread      the same for the noisy pipeline (`ntStep`)
+wcreate <re> <im> <wt>                  a new Wavefront object (handle = number of objects so far)   -> ok
+wfield <j> <re> <im> / wweights <j> <wt>   the caller changes object j                                 -> ok
+wint <j> <dt> <w> / wread               integrate object j as it is now / read out (`wStep`)          -> as int / read
 
 reference-level model of the noiseless detector (`rStep`; a handle is the position in the list of references
 handed to the caller, counted from 0 in the order `ralloc` / `rread` hand them out):
@@ -47,6 +52,9 @@ structure St where
   pst : PSt Rat := { flat := [], dark := [], sigma := [] }
   rst : RSt Rat := {}
   tst : TSt := {}
+  /-- re-used wavefront objects (`wStep`) and the grid label through the noisy pipeline (`ntStep`) -/
+  wst : WSt Rat := {}
+  ntst : NTSt := {}
   /-- every observation of the history so far (`run` / `pRun` collect exactly this list) -/
   obs : List (Obs Rat) := []
   /-- the history of a noisy detector so far, setters included -/
@@ -132,6 +140,59 @@ def step (st : St) : List String → St × String
   | ["twin"] =>
     if st.kind != .noisy then (st, "bad-op") else
     (st, "ok " ++ showRatLists (images (reads st.geom ({} : Detector.St Rat) (strip st.pops))))
+  | ["wcreate", re, im, wt] =>
+    match parseRatList? re, parseRatList? im, parseRatList? wt with
+    | some re, some im, some wt => ({ st with wst := (wStep st.geom st.wst (.create re im wt)).1 }, "ok")
+    | _, _, _ => (st, "bad-op")
+  | ["wfield", j, re, im] =>
+    match parseNat? j, parseRatList? re, parseRatList? im with
+    | some j, some re, some im =>
+      if j < st.wst.wfs.length then ({ st with wst := (wStep st.geom st.wst (.setField j re im)).1 }, "ok") else (st, "bad-op")
+    | _, _, _ => (st, "bad-op")
+  | ["wweights", j, wt] =>
+    match parseNat? j, parseRatList? wt with
+    | some j, some wt =>
+      if j < st.wst.wfs.length then ({ st with wst := (wStep st.geom st.wst (.setWeights j wt)).1 }, "ok") else (st, "bad-op")
+    | _, _ => (st, "bad-op")
+  | ["wint", j, dt, w] =>
+    match parseNat? j, parseRat? dt, parseRat? w with
+    | some j, some dt, some w =>
+      if j < st.wst.wfs.length then
+        let r := wStep st.geom st.wst (.integrate j dt w)
+        ({ st with wst := r.1 }, match r.2 with | some o => showObs o | none => "bad-op")
+      else (st, "bad-op")
+    | _, _, _ => (st, "bad-op")
+  | ["wread"] =>
+    let r := wStep st.geom st.wst .readOut
+    ({ st with wst := r.1 }, match r.2 with | some o => showObs o | none => "bad-op")
+  | ["ntset", prm, tag] =>
+    let t? : Option (Option GTag) := match tag with
+      | "none" => some none
+      | "detector" => some (some .detector)
+      | "input" => some (some .input)
+      | "foreign" => some (some .foreign)
+      | _ => none
+    match t?, prm with
+    | some t, "dark" => ({ st with ntst := (ntStep st.ntst (.setDark t)).1 }, "ok")
+    | some t, "flat" => ({ st with ntst := (ntStep st.ntst (.setFlat t)).1 }, "ok")
+    | some t, "sigma" => ({ st with ntst := (ntStep st.ntst (.setSigma t)).1 }, "ok")
+    | _, _ => (st, "bad-op")
+  | ["ntint", p] =>
+    let p? : Option PTag := match p with
+      | "input" => some .onInput
+      | "foreign" => some .onForeign
+      | "plain" => some .plain
+      | _ => none
+    match p? with
+    | some p => ({ st with ntst := (ntStep st.ntst (.integrate p)).1 }, "ok")
+    | none => (st, "bad-op")
+  | ["ntread"] =>
+    let r := ntStep st.ntst .readOut
+    ({ st with ntst := r.1 }, match r.2 with
+      | some .detector => "ok detector"
+      | some .input => "ok input"
+      | some .foreign => "ok foreign"
+      | none => "bad-op")
   | ["tint", p] =>
     let p? : Option PTag := match p with
       | "input" => some .onInput
